@@ -164,7 +164,7 @@ func engWriteSched(seed int64, tier string, _ []string, out *sx.Out) {
 			outs = sx.L{} // a schedule that could not be realised or a hang: reported as unanswered
 		}
 		out.Case(sx.L{sx.N(uint64(ver)), sx.N(2), sx.N(0), sx.N(1), sx.L{sx.N(0), sx.N(1024)}, sx.N(1), sx.L{}, fl,
-			broker.PkSx(req), outs, sx.Bool(closed)})
+			broker.PkSx(req), outs, sx.Bool(closed), sx.Bool(false)})
 		b.Shutdown()
 		mqtt.VerifPointHook = nil
 		if !ok {
@@ -251,6 +251,6 @@ func failedQueuedWrite(rng *rand.Rand, out *sx.Out) bool {
 		outs = sx.L{} // unrealised schedule, hang, or accepted packets stranded: reported as unanswered
 	}
 	out.Case(sx.L{sx.N(5), sx.N(2), sx.N(0), sx.N(1), sx.L{sx.N(0), sx.N(1024)}, sx.N(1), sx.L{}, fl,
-		broker.PkSx(req), outs, sx.Bool(closed)})
+		broker.PkSx(req), outs, sx.Bool(closed), sx.Bool(false)})
 	return ok
 }
